@@ -305,58 +305,58 @@ def obs_of(ev):
     return {"sz": {"k": ev["kind"], "w": ev["w"], "h": ev["h"], "m": ev["m"]}, "rendered": [ev["rw"], ev["rh"]]}
 
 
-def replay_walk(rep, walk, origin="replay"):
-    """Execute one covering walk on a fresh real object; returns number of edges compared."""
+def replay_walk(rep, walk, stats, origin="replay"):
+    """Execute one covering walk of the history machine on a fresh real object.
+
+    Compared with the model after every operation: the *structure* of the stored size (fixed
+    vs dynamic, which Size member) must be equal; the numbers (stored size, rendered_size, size
+    in force while rendering) are compared with the model's Algo prediction and the outcome
+    is COUNTED - the property is the relation, so the recorded events go to TLC
+    (Trace_Sizing) which judges them by SizeRel and the history clauses.
+    Returns the recorded trace (or None)."""
     first = walk[0]["from"]
     fam, ow, oh = first["fam"], first["ow"], first["oh"]
     env0 = {f: first[f] for f in ("tc", "tl", "cw", "ch", "rn", "rd")}
     ops = [op_record("new", env0)] + [edge_to_op(e) for e in walk]
-    scenario = {"kind": "walk", "walk": walk}
     try:
         evs = X.run_ops(fam, ow, oh, ops)
     except X.ExecError as e:
-        rep.violation(f"{origin}:{e.what}:{fam}", e.detail, scenario)
-        return 0
+        rep.violation(f"{origin}:{e.what}:{fam}", e.detail, {"kind": "walk", "walk": walk})
+        return None
     expect = [first] + [e["to"] for e in walk]
     for i, (ev, exp) in enumerate(zip(evs, expect)):
         got = obs_of(ev)
         o = ops[i]
-        for field in ("sz", "rendered"):
-            if got[field] != exp[field]:
-                what = "kind" if field == "sz" and got["sz"]["k"] != exp["sz"]["k"] else field
-                rep.violation(
-                    f"{origin}:{o['op']}:{o['k'] or '-'}:{what}:{fam}",
-                    f"step {i} of a {len(walk)}-edge walk on a {fam} image {ow}x{oh}: after {o['op']} "
-                    f"{json.dumps({f: o[f] for f in ('k', 'a', 'b', 'fc', 'fl')})} in terminal "
-                    f"{o['tc']}x{o['tl']} cell {o['cw']}x{o['ch']} ratio {o['rn']}/{o['rd']} the model "
-                    f"expects {field}={exp[field]} but the real object has {got[field]}",
-                    {"kind": "walk", "walk": walk[:i]},
-                )
-                return i
+        stats["steps"] += 1
+        if (got["sz"]["k"], got["sz"]["m"]) != (exp["sz"]["k"], exp["sz"]["m"]):
+            rep.violation(
+                f"{origin}:{o['op']}:{o['k'] or '-'}:kind:{fam}",
+                f"step {i} of a {len(walk)}-edge walk on a {fam} image {ow}x{oh}: after {o['op']} "
+                f"{json.dumps({f: o[f] for f in ('k', 'a', 'b', 'fc', 'fl')})} in terminal "
+                f"{o['tc']}x{o['tl']} cell {o['cw']}x{o['ch']} ratio {o['rn']}/{o['rd']} the model "
+                f"expects size {exp['sz']} but the real object has {got['sz']}",
+                {"kind": "walk", "walk": walk[:i]},
+            )
+            return None
+        same = got == {"sz": exp["sz"], "rendered": exp["rendered"]}
         if o["op"] == "render" and i > 0:
-            during = walk[i - 1]["op"]["during"]
-            if [ev["dw"], ev["dh"]] != during:
-                rep.violation(
-                    f"{origin}:render:during:{fam}",
-                    f"step {i}: the model expects size {during} in force while rendering, real: "
-                    f"{[ev['dw'], ev['dh']]} ({fam} image {ow}x{oh}, env {o})",
-                    {"kind": "walk", "walk": walk[:i]},
-                )
-                return i
-    return len(walk)
+            same = same and [ev["dw"], ev["dh"]] == walk[i - 1]["op"]["during"]
+        stats["equal_to_algo" if same else "differs_from_algo"] += 1
+    return dict(fam=fam, ow=ow, oh=oh, base=dict(cw=0, ch=0, rn=1, rd=2), ev=evs, calls=[],
+                origin=origin, walk=walk)
 
 
 # ------------------------------------------------------------------------------- validation
 
 
-def validate(traces, name, batch):
+def validate(traces, name, batch, parallel=2, workers=4):
     """TLC validation of a list of traces (runs TLC subprocesses; touches no shared state)."""
     if not traces:
         return [], 0, 0, 0.0
     t0 = time.time()
     payload = [{k: t[k] for k in ("fam", "ow", "oh", "base", "ev", "calls")} for t in traces]
     verdicts, st, tr = tlc.validate_traces(
-        "Trace_Sizing", "Trace_Sizing.cfg", payload, batch=batch, parallel=8, workers=2,
+        "Trace_Sizing", "Trace_Sizing.cfg", payload, batch=batch, parallel=parallel, workers=workers,
         timeout=1500, name=name,
     )
     return verdicts, st, tr, time.time() - t0
@@ -409,7 +409,9 @@ def report_trace_violation(rep, t, v):
     ev = event_at(t, i)
     clause = v["verdict"]
     ne = len(t["ev"])
-    if i <= ne:
+    if i <= ne and t.get("walk") is not None:
+        scenario = {"kind": "walk", "walk": t["walk"][: max(i - 1, 0)]}
+    elif i <= ne:
         ops = [{f: e[f] for f in ("op", "k", "a", "b", "fc", "fl", "ax", "tc", "tl", "cw", "ch", "rn", "rd")}
                for e in t["ev"][:i]]
         scenario = {"kind": "ops", "fam": t["fam"], "ow": t["ow"], "oh": t["oh"], "ops": ops,
@@ -497,7 +499,7 @@ def main(rep: Report, replay: dict | None) -> None:
     t0 = time.time()
     phases = rep.extra.setdefault("phase_wall_s", {})
     brs: set = set()
-    with ThreadPoolExecutor(max_workers=4) as ex:
+    with ThreadPoolExecutor(max_workers=6) as ex:
         f_mc = ex.submit(tlc.run, "MC_Sizing", "MC_Sizing_thorough.cfg" if thorough else "MC_Sizing.cfg",
                          workers=8, timeout=1500, deadlock=False, seed=rep.seed)
         f_hist = ex.submit(tlc.run, "MC_SizingHist",
@@ -510,7 +512,7 @@ def main(rep: Report, replay: dict | None) -> None:
                              "terminal_frames": ntf, "calls_per_image": ncalls, "images": len(grid)}
         phases["record_grid"] = round(time.time() - t0, 1)
         # ... and have TLC judge it (code -> spec) while recording goes on
-        f_vgrid = ex.submit(validate, grid, "c04grid", max(1, math.ceil(len(grid) / 16)))
+        f_vgrid = ex.submit(validate, grid, "c04grid", max(1, math.ceil(len(grid) / (8 if thorough else 4))), 4, 4)
         t1 = time.time()
         rng = random.Random(rep.seed * 1000003 + 4)
         n_large, n_hist = (6000, 4000) if thorough else (900, 700)
@@ -527,32 +529,36 @@ def main(rep: Report, replay: dict | None) -> None:
                 if t:
                     others.append(t)
         phases["record_ops"] = round(time.time() - t1, 1)
-        f_vops = ex.submit(validate, others, "c04ops", max(1, math.ceil(len(others) / 8)))
+        f_vops = ex.submit(validate, others, "c04ops", max(1, math.ceil(len(others) / 2)))
 
         # spec -> code: replay every transition of the history machine into the real code
         res_hist = f_hist.result()
         g = check_history(rep, res_hist)
         t2 = time.time()
+        replayed = []
         if g is not None:
             walks = g.walks(max_len=60)
             if g.unreachable_edges:
                 raise tlc.MachineryError(f"{g.unreachable_edges} dumped edges are unreachable from the initial states")
-            compared = 0
+            stats = {"steps": 0, "equal_to_algo": 0, "differs_from_algo": 0}
             for w in walks:
-                compared += replay_walk(rep, w)
+                t = replay_walk(rep, w, stats)
+                if t:
+                    replayed.append(t)
                 if len(rep.violations) > 40:
                     break
-            rep.traces_validated += len(walks)
-            rep.evaluations += compared
-            rep.extra["replay"] = {"walks": len(walks), "edges_compared": compared, "edges": len(g.edges)}
+            rep.evaluations += stats["steps"]
+            rep.extra["replay"] = {"walks": len(walks), "edges": len(g.edges), **stats}
             if walks:
                 rep.sample({"replayed_walk": [[e["op"]["o"]["op"], e["op"]["o"]["k"], e["to"]["sz"], e["to"]["rendered"]]
                                               for e in walks[len(walks) // 2][:6]]})
+        f_vreplay = ex.submit(validate, replayed, "c04replay", max(1, math.ceil(len(replayed) / 2)))
         phases["replay"] = round(time.time() - t2, 1)
 
         check_design(rep, f_mc.result(), thorough)
         phases["validate_grid"] = round(absorb(rep, grid, f_vgrid.result(), brs), 1)
         phases["validate_ops"] = round(absorb(rep, others, f_vops.result(), brs), 1)
+        phases["validate_replay"] = round(absorb(rep, replayed, f_vreplay.result(), set()), 1)
 
     rep.extra["dimensions_clamped_for_int32"] = sum(t.get("clamped", 0) for t in others)
     for t in grid:
@@ -584,8 +590,11 @@ def run_replay(rep: Report, replay: dict) -> None:
     kind = sc.get("kind")
     if kind == "walk":
         if sc["walk"]:
-            replay_walk(rep, sc["walk"])
-        rep.traces_validated += 1
+            stats = {"steps": 0, "equal_to_algo": 0, "differs_from_algo": 0}
+            t = replay_walk(rep, sc["walk"], stats)
+            if t:
+                absorb(rep, [t], validate([t], "c04replay", 1), set())
+            rep.extra["replay"] = stats
         return
     if kind == "ops":
         t = execute(rep, sc["fam"], sc["ow"], sc["oh"], sc["ops"], sc.get("origin", "replay"))
